@@ -89,6 +89,26 @@ func c03Build(cs c03Case) (file []byte, bases, sizes []int64, payloads [][]byte,
 		c03MembersMu.Lock()
 		mb, ok := c03Members[p]
 		c03MembersMu.Unlock()
+		var e error
+		_ = e
+		if !ok && strings.HasPrefix(p, "R") {
+			// "R<hex byte>x<count>": a member framed by hand (gzip + BC extra field), because bgzf.Writer cannot
+			// produce a payload above 0xff00 bytes and the format allows up to 65536
+			f := strings.Split(p[1:], "x")
+			bv, e1 := strconv.ParseUint(f[0], 16, 8)
+			cnt, e2 := strconv.Atoi(f[len(f)-1])
+			if len(f) != 2 || e1 != nil || e2 != nil {
+				return nil, nil, nil, nil, fmt.Errorf("bad run-length payload %q", p)
+			}
+			mb, e = c03HandMember(bytes.Repeat([]byte{byte(bv)}, cnt))
+			if e != nil {
+				return nil, nil, nil, nil, e
+			}
+			c03MembersMu.Lock()
+			c03Members[p] = mb
+			c03MembersMu.Unlock()
+			ok = true
+		}
 		if !ok {
 			b, e := hex.DecodeString(p)
 			if e != nil {
@@ -609,6 +629,104 @@ func c03GenOps(rnd *Rand, lens []int, kind string, cp int, nops int, setAt int) 
 	return ops
 }
 
+// c03HandMember frames one BGZF member around payload without bgzf.Writer.
+func c03HandMember(payload []byte) ([]byte, error) {
+	var buf bytes.Buffer
+	zw, err := gzip.NewWriterLevel(&buf, gzip.BestSpeed)
+	if err != nil {
+		return nil, err
+	}
+	zw.Header.Extra = []byte{'B', 'C', 2, 0, 0, 0}
+	zw.Header.OS = 0xff
+	if _, err := zw.Write(payload); err != nil {
+		return nil, err
+	}
+	if err := zw.Close(); err != nil {
+		return nil, err
+	}
+	b := buf.Bytes()
+	if len(b) > 65536 || len(b) < 18 || b[12] != 'B' || b[13] != 'C' {
+		return nil, fmt.Errorf("hand-framed member: unexpected layout (%d bytes)", len(b))
+	}
+	b[16], b[17] = byte(len(b)-1), byte((len(b)-1)>>8)
+	return append([]byte{}, b...), nil
+}
+
+// c03GenExtreme (seed C03-6): a member with the largest legal payload (65536 bytes: the in-block offset, a uint16,
+// wraps to 0 at its end), or one just below it, between two small members; the big member is read exactly to its
+// end, left (so that it is cached), and entered again by reading across the boundary from the member before it.
+func c03GenExtreme(rnd *Rand) c03Case {
+	big := []int{65536, 65536, 65536, 65535, 65280}[rnd.intn(5)]
+	cs := c03Case{Payloads: []string{"4141414141", fmt.Sprintf("R42x%d", big), "434343434343"}, Marker: rnd.coin(1, 2),
+		Rd: rnd.rng(1, 3)}
+	kind := c03Kinds[rnd.intn(len(c03Kinds))]
+	ops := []string{fmt.Sprintf("c%s,%d", kind, rnd.rng(2, 4))}
+	k := rnd.rng(1, 9)
+	ops = append(ops, fmt.Sprintf("s1,%d", big-k))
+	switch rnd.intn(3) {
+	case 0:
+		ops = append(ops, fmt.Sprintf("r%d", k)) // exactly to the last byte
+	case 1:
+		for i := 0; i < k; i++ {
+			ops = append(ops, "b")
+		}
+	default:
+		ops = append(ops, fmt.Sprintf("r%d", k-1), "b")
+	}
+	if rnd.coin(1, 3) {
+		ops = append(ops, "z")
+	}
+	ops = append(ops, fmt.Sprintf("s0,%d", rnd.intn(5)))
+	if rnd.coin(1, 3) {
+		ops = append(ops, "b")
+	}
+	ops = append(ops, fmt.Sprintf("r%d", rnd.rng(6, 12))) // across the boundary into the big member
+	if rnd.coin(1, 2) {
+		ops = append(ops, fmt.Sprintf("s1,%d", big-2), "r5", "s0,4", "r3")
+	}
+	if strings.HasPrefix(kind, "S") {
+		ops = append(ops, "S")
+	}
+	cs.Ops = ops
+	return cs
+}
+
+// c03GenHandover (seed C03-7): with read-ahead, Seek to a member the worker has ready at the head of the queue (the
+// block is handed to the reader AND put into the cache: it is on loan), the cache is detached, a Seek that has to
+// decompress follows (it must not recycle that block), the same cache object is attached again, Seek back.
+func c03GenHandover(rnd *Rand) c03Case {
+	n := rnd.rng(5, 7)
+	cs := c03Case{Marker: rnd.coin(1, 2), Rd: rnd.rng(2, 4)}
+	for i := 0; i < n; i++ {
+		cs.Payloads = append(cs.Payloads, hex.EncodeToString(bytes.Repeat([]byte{byte(0x41 + i)}, rnd.rng(3, 9))))
+	}
+	kind := c03Kinds[rnd.intn(len(c03Kinds))]
+	ops := []string{fmt.Sprintf("c%s,%d", kind, rnd.rng(2, 4))}
+	if rnd.coin(2, 3) {
+		ops = append(ops, "z") // let the worker fill the queue
+	}
+	tgt := rnd.rng(1, 2)
+	if tgt == 2 && rnd.coin(1, 2) {
+		ops = append(ops, "s1,0") // the member after it is then at the head of the queue
+	}
+	ops = append(ops, fmt.Sprintf("s%d,%d", tgt, rnd.intn(2)))
+	if rnd.coin(1, 3) {
+		ops = append(ops, "r1")
+	}
+	ops = append(ops, "c-")
+	far := rnd.rng(tgt+2, n-1)
+	ops = append(ops, fmt.Sprintf("s%d,0", far))
+	if rnd.coin(1, 2) {
+		ops = append(ops, "r2")
+	}
+	ops = append(ops, "c=0", fmt.Sprintf("s%d,0", tgt), fmt.Sprintf("r%d", rnd.rng(2, 6)))
+	if strings.HasPrefix(kind, "S") {
+		ops = append(ops, "S")
+	}
+	cs.Ops = ops
+	return cs
+}
+
 // the two witness histories (three members AAAAAA BBBBBB CCCC, no marker)
 func c03WitnessStale(kind string, cp int) c03Case {
 	return c03Case{Payloads: []string{"414141414141", "424242424242", "43434343"}, Rd: 1, Tag: "witness-stale",
@@ -885,6 +1003,12 @@ func (x *c03Ctx) payloadHex(cs c03Case, i int) string {
 	if i < len(cs.Payloads) {
 		if cs.Payloads[i] == "-" {
 			return "-"
+		}
+		if p := cs.Payloads[i]; strings.HasPrefix(p, "R") {
+			if f := strings.Split(p[1:], "x"); len(f) == 2 {
+				n, _ := strconv.Atoi(f[1])
+				return strings.Repeat(f[0], n)
+			}
 		}
 		return cs.Payloads[i]
 	}
@@ -1254,6 +1378,31 @@ func checkC03(c *ctx) {
 				jobs <- job{cs2, false}
 			}
 		}
+	}
+	// ---- targeted families (oracle only: cached against uncached implementation)
+	nExtreme, nHandover := 90, 240
+	nExtremeModel := 0
+	if c.thorough() {
+		nExtreme, nHandover = 900, 3000
+	}
+	for i := 0; i < nExtreme; i++ {
+		cs := c03GenExtreme(c.rnd)
+		x.mu.Lock()
+		res.hist("family: member with a 65536-byte (or nearly) payload, read to its end, cached, re-entered sequentially")
+		x.mu.Unlock()
+		// the first few rd = 1 ones also go through the Lean model (in-block offsets are uint16 there as well)
+		toModel := cs.Rd == 1 && nExtremeModel < 6
+		if toModel {
+			nExtremeModel++
+		}
+		jobs <- job{cs, toModel}
+	}
+	for i := 0; i < nHandover; i++ {
+		cs := c03GenHandover(c.rnd)
+		x.mu.Lock()
+		res.hist("family: read-ahead hands the Seek target over, detach, decompressing Seek, re-attach, Seek back")
+		x.mu.Unlock()
+		jobs <- job{cs, false}
 	}
 	close(jobs)
 	wg.Wait()
